@@ -559,6 +559,7 @@ DB = "nostr_relay/storage/db.py"
 KV = "nostr_relay/storage/kv.py"
 
 MUTANTS = [
+    M("c17-cli-prunes-tags", "nostr_relay/cli.py", "            async for event in storage.run_single_query(query):", "            await cursor.execute(storage.TagTable.delete())\n            async for event in storage.run_single_query(query):", "C17.tagrows"),
     M("c17-gc-in-loop", "nostr_relay/storage/db.py", "        return max(0, result.rowcount)", "        while result.rowcount > 100:\n            result = await conn.execute(sa.text(self.query.replace(\"%NOW%\", str(int(time())))))\n        return max(0, result.rowcount)", "C17.statement"),
     M("c17-recipe-skips-super", "nostr_relay/recipe/homeserver.py", "    async def post_save(self, event, **kwargs):\n        await super().post_save(event, **kwargs)", "    async def post_save(self, event, **kwargs):\n        if event.kind == 22242:\n            return\n        await super().post_save(event, **kwargs)", "C17.overrides"),
     M("c17-sql-index-capped", DB, "            tags = set()\n            for tag in event.tags:\n                if tag[0] in (\"delegation\", \"expiration\"):", "            tags = set()\n            for tag in event.tags[:32]:\n                if tag[0] in (\"delegation\", \"expiration\"):", "C17.index"),
